@@ -120,6 +120,8 @@ type VC struct {
 	abandonPath bool
 	usedLemmas map[string]bool
 	rangeAsserted map[string]bool
+	recvOrd   int
+	pendingRecv int
 	covers    []*Obligation
 	typeFacts []string // type invariants of heap values mentioned in specs (always true)
 }
